@@ -121,7 +121,7 @@ func touchAttrs(m pcommon.Map, mk string, structural bool) {
 	m.PutStr("added-"+mk, mk)
 	if structural {
 		m.Remove("i")
-		m.PutEmptyMap("newmap-" + mk).PutStr("k", mk)
+		m.PutEmptyMap("newmap-"+mk).PutStr("k", mk)
 	}
 }
 
